@@ -133,7 +133,9 @@ def _expression_nodes_to_string(nodes):
 
 def _suite_nodes_to_string(nodes, pos):
     n = nodes[0]
-    prefix, part_of_code = _split_prefix_at(n.get_first_leaf(), pos[0] - 1)
+    # The selection might start after the first line of the first statement.
+    line = min(pos[0], n.start_pos[0])
+    prefix, part_of_code = _split_prefix_at(n.get_first_leaf(), line - 1)
     code = part_of_code + n.get_code(include_prefix=False) \
         + ''.join(n.get_code() for n in nodes[1:])
     return prefix, code
